@@ -104,7 +104,12 @@ impl Sanitizer {
         }
 
         if let Some(max_len) = self.max_length {
-            result.truncate(max_len);
+            // String::truncate panics when the index is not a char boundary
+            let mut end = max_len.min(result.len());
+            while !result.is_char_boundary(end) {
+                end -= 1;
+            }
+            result.truncate(end);
         }
 
         if let Some(sep) = &self.separator {
